@@ -70,6 +70,24 @@ META = {
         note="Failures of the final write() itself (disk full) are outside the property's scope (A6).",
         ref="5 C18",
     ),
+    "C07": dict(
+        technique="effective-configuration extraction of the one json.dumps call (explicit keywords merged over inspect.signature defaults), purity of the serializer's cone, message-sink dataflow through forwarding parameters; custom rules",
+        text="Decides the part of the wire-format property that is in this source: canonserialize is json.dumps(obj, sort_keys=True, indent=2, ensure_ascii=True, default separators, allow_nan=True, ...).encode(utf-8) and nothing else; it reads no ambient state; every message reaching key.sign, key.verify (directly or as first digest chunk) or the GnuPG signer is a canonserialize(...) term at every library call site, so there is exactly one serializer on both sides.",
+        note="Partial: determinism across hash seeds/locales, injectivity, parse-serialize fixpoint and float/surrogate rendering are properties of CPython's json module given this configuration; they are not decided (static reach ends at the configuration).",
+        ref="5 C07",
+    ),
+    "C09": dict(
+        technique="term-level matching of the wrap return value, the single store of sign_signable (target, value, ordering after the grammar check), interprocedural write set, sibling writer/reader agreement, exact accept gate",
+        text="wrap_as_signable returns a fresh two-field dict with a deep copy under a JSON-type gate; sign_signable performs exactly one store, under hex(raw public key of the given private key), of {'signature': hex(sign(canonserialize(signable['signed'])))}, after the entry passed the grammar, and writes nothing else (so other signers' entries are untouched and order cannot matter); signer and verifier agree on serializer/field/codec/filing; the accept gate is exactly len(counted) >= threshold.",
+        note="Partial: determinism/idempotence of Ed25519 and 'a changed payload stops verifying' are crypto-library facts (A2).",
+        ref="5 C09",
+    ),
+    "C11": dict(
+        technique="symbolic walk of sign_all_in_repodata over the loaded document term: event ordering (reset before inserts), per-section loop store matching, sibling-loop agreement, write-set and write-back pairing",
+        text="For every repodata document: the signatures section is reset before any insert; both packages and packages.conda are iterated; each iteration stores exactly {hex(pub of signing key): {'signature': hex(sign(canonserialize(that artifact's metadata)))}} under the artifact's name; nothing else in the document is written; the same value is written back canonically to the same path; the entry shape is the one the envelope verifier reads.",
+        note="Client-side acceptance of each reconstructed envelope additionally relies on C01/C02/C05; value-level idempotence ('signing again changes nothing') follows from determinism of Ed25519 (A2).",
+        ref="5 C11",
+    ),
     "C13": dict(
         technique="exception-escape analysis (path-sensitive fact propagation + conditional summaries) over an ast-resolved program; call-graph acyclicity; custom rules",
         text="Static exception-escape analysis of all 24 public validators and 5 verifiers on every control-flow path: the escape set of each is within the documented families, named rejections carry the named classes, no while/recursion/mutated-iterable loops. Holds for every input because values are abstracted to guard facts; a new unguarded subscript, narrowed handler, assert-as-validation or foreign raise is reported with its call chain.",
